@@ -27,39 +27,43 @@ def run(idx: Index, rep: Report, tier: str) -> None:
     cfg = cfg_of(f)
     du = DefUse(cfg)
     rule1 = "C27.1 T1 read-set-sources"
-    aug = [n for n in cfg.nodes if isinstance(n.ast, ast.AugAssign) and isinstance(n.ast.op, ast.BitOr) and isinstance(n.ast.target, ast.Name)]
-    if not aug:
-        raise AnalysisError("anchor vanished: read-set accumulation in _to_partial_order_plan")
-    read_set = aug[0].ast.target.id
-    sources = {}
-    for n in aug:
-        if n.ast.target.id != read_set:
-            continue
-        for ch in du.expanded_chains(n.ast.value, n):
-            for key in ("preconditions", "condition", "value", "fluent"):
-                if ch[-1] == key or (key == "preconditions" and "preconditions" in ch):
-                    if key not in sources or ("effects" in ch and "effects" not in sources[key][1]):
-                        sources[key] = (n, ch)
-    for key, why in (("preconditions", "a precondition reads"), ("condition", "an effect condition reads"), ("value", "an effect value reads"), ("fluent", "an effect target writes (recorded as read so that write-write pairs stay ordered)")):
-        hit = sources.get(key)
-        ok = hit is not None
-        if ok and key != "preconditions":
-            ok = "expand_effect()" in hit[1] and "effects" in hit[1]
-        rep.check(ok, rule1, f"the read set contains the fluents {why}", f.loc(hit[0].ast) if hit else f.loc(), construct=".".join(hit[1]) if hit else f"nothing derived from .{key} is added to {read_set}", detail="" if ok else f"two instances where one writes a fluent that {why.split()[0]} {why.split()[1]} of the other are left unordered", function=f.qualname)
-    ee = [c for _, c in cfg_nodes_with_call(cfg, "expand_effect")]
-    params = set(f.params()) - {"self"}
-    ok = len(ee) >= 2 and all(c.args and isinstance(c.args[0], ast.Name) and c.args[0].id in params for c in ee)
-    rep.check(ok, rule1, "effects are expanded over the problem's objects in both the read and the write pass", f.loc(ee[0]) if ee else f.loc(), construct=f"{len(ee)} expand_effect(<problem parameter>) sites", detail="" if ok else "forall effects are not expanded: the fluents they touch are missing from the read/write sets", function=f.qualname)
-    rq = [c for _, c in cfg_nodes_with_call(cfg, "remove_quantifiers")]
-    rep.check(len(rq) >= 4, rule1, "quantifiers are removed before free fluents are extracted", f.loc(rq[0]) if rq else f.loc(), construct=f"{len(rq)} remove_quantifiers sites", function=f.qualname)
-    # the grounding map: built from the formal and the actual parameters of the instance
-    maps = [a for a in walk_no_nested(f.node) if isinstance(a, (ast.Assign, ast.AnnAssign)) and a.value is not None and any(isinstance(x, ast.Attribute) and x.attr == "actual_parameters" for x in ast.walk(a.value))]
-    ok = bool(maps) and any(isinstance(x, ast.Attribute) and x.attr == "parameters" for x in ast.walk(maps[0].value)) and any(isinstance(x, ast.Call) and call_name(x) == "zip" for x in ast.walk(maps[0].value))
-    rep.check(ok, rule1, "the grounding map pairs formal with actual parameters", f.loc(maps[0]) if maps else f.loc(), construct=norm(maps[0].value) if maps else "no map built from actual_parameters", function=f.qualname)
-    mname = norm(maps[0].targets[0] if isinstance(maps[0], ast.Assign) else maps[0].target) if maps else None
-    adds = [(n, c) for n, c in cfg_nodes_with_call(cfg, "add") if c.args and any(ch[0] == read_set and "<elem>" in ch for ch in du.expanded_chains(c.args[0], n))]
-    ok = bool(adds) and all(any(isinstance(x, ast.Call) and call_name(x) == "substitute" and any(norm(a) == mname for a in x.args) for x in ast.walk(c.args[0])) for _, c in adds)
-    rep.check(ok, rule1, "read fluents are grounded with the instance's actual parameters", f.loc(adds[0][1]) if adds else f.loc(), construct=norm(adds[0][1])[:100] if adds else "no grounded copy of the read set", function=f.qualname)
+    def read_set_rule() -> None:
+        aug = [n for n in cfg.nodes if isinstance(n.ast, ast.AugAssign) and isinstance(n.ast.op, ast.BitOr) and isinstance(n.ast.target, ast.Name)]
+        if not aug:
+            rep.vanished(rule1, "read-set accumulation in _to_partial_order_plan", f.qualname, f.loc())
+            return
+        read_set = aug[0].ast.target.id
+        sources = {}
+        for n in aug:
+            if n.ast.target.id != read_set:
+                continue
+            for ch in du.expanded_chains(n.ast.value, n):
+                for key in ("preconditions", "condition", "value", "fluent"):
+                    if ch[-1] == key or (key == "preconditions" and "preconditions" in ch):
+                        if key not in sources or ("effects" in ch and "effects" not in sources[key][1]):
+                            sources[key] = (n, ch)
+        for key, why in (("preconditions", "a precondition reads"), ("condition", "an effect condition reads"), ("value", "an effect value reads"), ("fluent", "an effect target writes (recorded as read so that write-write pairs stay ordered)")):
+            hit = sources.get(key)
+            ok = hit is not None
+            if ok and key != "preconditions":
+                ok = "expand_effect()" in hit[1] and "effects" in hit[1]
+            rep.check(ok, rule1, f"the read set contains the fluents {why}", f.loc(hit[0].ast) if hit else f.loc(), construct=".".join(hit[1]) if hit else f"nothing derived from .{key} is added to {read_set}", detail="" if ok else f"two instances where one writes a fluent that {why.split()[0]} {why.split()[1]} of the other are left unordered", function=f.qualname)
+        ee = [c for _, c in cfg_nodes_with_call(cfg, "expand_effect")]
+        params = set(f.params()) - {"self"}
+        ok = len(ee) >= 2 and all(c.args and isinstance(c.args[0], ast.Name) and c.args[0].id in params for c in ee)
+        rep.check(ok, rule1, "effects are expanded over the problem's objects in both the read and the write pass", f.loc(ee[0]) if ee else f.loc(), construct=f"{len(ee)} expand_effect(<problem parameter>) sites", detail="" if ok else "forall effects are not expanded: the fluents they touch are missing from the read/write sets", function=f.qualname)
+        rq = [c for _, c in cfg_nodes_with_call(cfg, "remove_quantifiers")]
+        rep.check(len(rq) >= 4, rule1, "quantifiers are removed before free fluents are extracted", f.loc(rq[0]) if rq else f.loc(), construct=f"{len(rq)} remove_quantifiers sites", function=f.qualname)
+        # the grounding map: built from the formal and the actual parameters of the instance
+        maps = [a for a in walk_no_nested(f.node) if isinstance(a, (ast.Assign, ast.AnnAssign)) and a.value is not None and any(isinstance(x, ast.Attribute) and x.attr == "actual_parameters" for x in ast.walk(a.value))]
+        ok = bool(maps) and any(isinstance(x, ast.Attribute) and x.attr == "parameters" for x in ast.walk(maps[0].value)) and any(isinstance(x, ast.Call) and call_name(x) == "zip" for x in ast.walk(maps[0].value))
+        rep.check(ok, rule1, "the grounding map pairs formal with actual parameters", f.loc(maps[0]) if maps else f.loc(), construct=norm(maps[0].value) if maps else "no map built from actual_parameters", function=f.qualname)
+        mname = norm(maps[0].targets[0] if isinstance(maps[0], ast.Assign) else maps[0].target) if maps else None
+        adds = [(n, c) for n, c in cfg_nodes_with_call(cfg, "add") if c.args and any(ch[0] == read_set and "<elem>" in ch for ch in du.expanded_chains(c.args[0], n))]
+        ok = bool(adds) and all(any(isinstance(x, ast.Call) and call_name(x) == "substitute" and any(norm(a) == mname for a in x.args) for x in ast.walk(c.args[0])) for _, c in adds)
+        rep.check(ok, rule1, "read fluents are grounded with the instance's actual parameters", f.loc(adds[0][1]) if adds else f.loc(), construct=norm(adds[0][1])[:100] if adds else "no grounded copy of the read set", function=f.qualname)
+
+    read_set_rule()
 
     rule2 = "C27.2 ordering-edges"
     # roles are recognised by what the code does with them, not by their names
@@ -83,8 +87,10 @@ def run(idx: Index, rep: Report, tier: str) -> None:
     # reader registries: <dict>.setdefault(k, []) … .append(<instance>)
     regs = []
     for n, c in cfg_nodes_with_call(cfg, "append"):
-        if c.args and is_inst(c.args[0], n) and any("setdefault()" in ch for ch in du.expanded_chains(c.func.value, n)):
-            regs.append((n, c, {ch[0] for ch in du.expanded_chains(c.func.value, n) if "setdefault()" in ch}))
+        # `<registry>.setdefault(k, []).append(x)` or `<registry>[k].append(x)` (the entry created beforehand)
+        entry = [ch for ch in du.expanded_chains(c.func.value, n) if len(ch) >= 2 and ch[1] in ("setdefault()", "[]", "get()")]
+        if c.args and is_inst(c.args[0], n) and entry:
+            regs.append((n, c, {ch[0] for ch in entry}))
     rep.check(bool(regs), rule2, "every reader is registered for the fluents it reads", f.loc(regs[0][1]) if regs else f.loc(), construct=norm(regs[0][1]) if regs else "no `<registry>.setdefault(f, []).append(<instance>)`", function=f.qualname)
     reg_names = set().union(*[r[2] for r in regs]) if regs else set()
     edges = [(n, c) for n, c in cfg_nodes_with_call(cfg, "add_edge") if len(c.args) == 2]
